@@ -919,7 +919,7 @@ static std::vector<Cfg> param_box(int len, int which = 0) {
             if (a == b) return true;
         return false;
     };
-    const std::initializer_list<double> lmu = {0.01, 0.1, 0.5}, nmu = {0.01, 0.1, 0.5, 1.0}, lk = {1.0, 0.999, 0.9}, lam0 = {0.9, 0.95, 0.99, 1.0}, del0 = {1e-2, 1.0, 1e2, 1e4};
+    const std::initializer_list<double> lmu = {0.01, 0.1, 0.5}, nmu = {0.01, 0.1, 0.5, 1.0}, lk = {1.0, 0.999, 0.9}, lam0 = {0.9, 0.95, 0.99, 0.9995, 1.0}, del0 = {1e-2, 1.0, 1e2, 1e4};
     if (which == 0) {
         for (double mu : lmu)
             for (double leak : lk) v.push_back(Cfg{K_LMS, len, mu, leak, 0, 0});
@@ -935,7 +935,7 @@ static std::vector<Cfg> param_box(int len, int which = 0) {
     for (double mu : {0.01, 0.05, 0.1, 0.25, 0.5, 1.0, 1.5})
         for (double leak : {1.0, 0.9999, 0.999, 0.99, 0.9})
             if (which == 1 || !(in(mu, nmu) && in(leak, lk))) v.push_back(Cfg{K_NLMS, len, mu, leak, 0, 0});
-    for (double lam : {0.9, 0.95, 0.98, 0.99, 0.999, 1.0})
+    for (double lam : {0.9, 0.95, 0.98, 0.99, 0.999, 0.9992, 0.9995, 0.9999, 1.0})   // incl. factors strictly between 0.999 and 1 (after seed C12-Z)
         for (double del : {1e-2, 1e-1, 1.0, 10.0, 1e2, 1e3, 1e4})
             if (which == 1 || !(in(lam, lam0) && in(del, del0))) v.push_back(Cfg{K_RLS, len, 0, 0, lam, del});
     return v;
